@@ -4,7 +4,7 @@ import ast
 from . import rule, info
 from ..program import AnalysisError, src, norm, ClassInfo
 from ..pattern import match, matches
-from ..util import (clone, exclusive, branch_of, polarity, cond_expr, is_name, calls_in, callee_qual, deref, ancestors, handler_outcomes, handler_body_nodes,
+from ..util import (clone, parent, exclusive, branch_of, polarity, cond_expr, is_name, calls_in, callee_qual, deref, ancestors, handler_outcomes, handler_body_nodes,
                     enclosing_trys, handler_covers, completes_normally, evaluator_calls, fmt_witness)
 
 info('C05',
@@ -809,4 +809,55 @@ def wrapped_errors_render_the_trace(ctx):
                '' if ok else 'a wrapped class with its own __str__ (KeyError, OSError, ImportError ...) prints its bare message: no target-spec trace',
                node=e)
     ctx.require(n >= 1, 'wrap(): bases not found')
+    ctx.floor(1)
+
+
+@rule('C05.23')
+def branch_errors_are_rendered_whole(ctx):
+    """the error that ended an abandoned branch is shown as Python itself would print it:
+    ``format_exception_only`` returns a *list* of strings (several for SyntaxError, and since 3.11
+    one more per PEP 678 note), and the line shown is their concatenation.  Picking one element
+    (``[-1]``) shows the last note instead of the exception's type and message"""
+    p = ctx.program
+    n = 0
+    for u in p.package_units():
+        if u.module.short != 'core':
+            continue
+        for c in calls_in(u):
+            if callee_qual(p, u, c) != 'traceback.format_exception_only':
+                continue
+            n += 1
+            par = parent(c)
+            whole = isinstance(par, ast.Call) and isinstance(par.func, ast.Attribute) and par.func.attr == 'join' and c in par.args
+            # or bound to a local that is only ever joined / iterated
+            if not whole and isinstance(par, ast.Assign) and is_name(par.targets[0]):
+                nm = par.targets[0].id
+                uses = [x for x in u.own_nodes() if isinstance(x, ast.Name) and x.id == nm and isinstance(x.ctx, ast.Load)]
+                whole = bool(uses) and all(
+                    (isinstance(parent(x), ast.Call) and isinstance(parent(x).func, ast.Attribute) and parent(x).func.attr == 'join')
+                    or isinstance(parent(x), (ast.For, ast.comprehension)) for x in uses)
+            ctx.ob(whole, u, 'every string of format_exception_only() goes into the rendered line: %s' % norm(par)[:70],
+                   '' if whole else 'one element is picked: an exception carrying notes (or a SyntaxError) loses its type and message', node=c)
+    ctx.require(n >= 1, 'format_exception_only() not found in the trace renderer')
+    ctx.floor(1)
+
+
+@rule('C05.24')
+def trace_width_has_a_floor(ctx):
+    """values are truncated to the trace width minus the gutter and the ``... (len=N)`` suffix;
+    that is only a prefix of the value while the width stays above a floor, so TRACE_WIDTH is the
+    terminal width clamped from below (``max(.., K)``): on a 24-column terminal the slice bound
+    would be zero or negative and no part of the target would be shown"""
+    mod = ctx.program.modules['glom.core']
+    defs = [st for st in mod.tree.body if isinstance(st, ast.Assign) and any(is_name(t, 'TRACE_WIDTH') for t in st.targets)]
+    ctx.require(len(defs) == 1, 'core.TRACE_WIDTH: definition not found')
+    v = defs[0].value
+    floors = []
+    if isinstance(v, ast.Call) and is_name(v.func, 'max'):
+        floors = [a.value for a in v.args if isinstance(a, ast.Constant) and isinstance(a.value, int)]
+    elif isinstance(v, ast.Constant) and isinstance(v.value, int):
+        floors = [v.value]
+    ok = bool(floors) and max(floors) >= 40
+    ctx.ob(ok, 'glom/core.py', 'the trace width is clamped from below: TRACE_WIDTH = %s' % norm(v),
+           '' if ok else 'no lower bound (>= 40 columns): on a narrow terminal the truncation shows none of the value', node=defs[0])
     ctx.floor(1)
